@@ -90,8 +90,88 @@ pub fn run_line(line: &str) -> String
     out.join(" | ")
 }
 
+/// Free-running stress (thorough tier): worker threads drop their clones at unsynchronised moments while the main
+/// thread keeps collecting.  Model-free oracle = the statement of C10 at the end of each round: an entity whose
+/// signal still has a live clone has survived every collection; an entity all of whose clones were dropped is dead
+/// after one more collection; nothing else was touched.
+pub fn stress(rounds: u32, seed: u64) -> Result<String, String>
+{
+    let mut rng = seed.wrapping_mul(6364136223846793005).wrapping_add(1442695040888963407);
+    let mut next = move |m: u64| { rng = rng.wrapping_mul(6364136223846793005).wrapping_add(1442695040888963407); (rng >> 33) % m };
+    let mut collected = 0u64; let mut kept = 0u64; let mut drops = 0u64;
+    for round in 0..rounds
+    {
+        let mut app = App::new();
+        app.setup_auto_despawn();
+        let n = 4 + next(12) as usize;
+        let bystander = app.world_mut().spawn_empty().id();
+        let mut ents = Vec::new();
+        let mut held: Vec<Option<AutoDespawnSignal>> = Vec::new();
+        let mut per_thread: Vec<Vec<(AutoDespawnSignal, u64)>> = (0..4).map(|_| Vec::new()).collect();
+        for _ in 0..n
+        {
+            let e = app.world_mut().spawn_empty().id();
+            // half of them get a child that must go with the parent
+            if next(2) == 0
+            {
+                let c = app.world_mut().spawn_empty().id(); app.world_mut().entity_mut(c).set_parent(e);
+                // the child may have a signal of its own: when the parent goes first, the child's entry on the channel is stale
+                if next(2) == 0 { let cs = app.world().resource::<AutoDespawner>().prepare(c); per_thread[next(4) as usize].push((cs, next(2000))); drops += 1; }
+            }
+            let sig = app.world().resource::<AutoDespawner>().prepare(e);
+            let clones = 1 + next(6);
+            for _ in 0..clones { let t = next(4) as usize; per_thread[t].push((sig.clone(), next(2000))); drops += 1; }
+            if next(3) == 0 { held.push(Some(sig)); } else { per_thread[next(4) as usize].push((sig, next(2000))); held.push(None); drops += 1; }
+            ents.push(e);
+        }
+        let handles: Vec<_> = per_thread.into_iter().map(|v| std::thread::spawn(move || {
+            for (s, spin) in v { for _ in 0..spin { std::hint::spin_loop(); } drop(s); }
+        })).collect();
+        // the main thread collects while the workers drop
+        let mut spins = 0;
+        while handles.iter().any(|h| !h.is_finished()) && spins < 1_000_000
+        {
+            garbage_collect_entities(app.world_mut());
+            for (i, e) in ents.iter().enumerate()
+            {
+                if held[i].is_some() && app.world().get_entity(*e).is_err()
+                { return Err(format!("round {round}: entity {i} was collected while a clone of its signal was alive")); }
+            }
+            spins += 1;
+        }
+        for h in handles { h.join().map_err(|_| "worker panicked".to_string())?; }
+        garbage_collect_entities(app.world_mut());
+        for (i, e) in ents.iter().enumerate()
+        {
+            let alive = app.world().get_entity(*e).is_ok();
+            if held[i].is_some() && !alive { return Err(format!("round {round}: entity {i} collected although a clone is still held")); }
+            if held[i].is_none() && alive { return Err(format!("round {round}: entity {i} survived the collection after its last clone was dropped")); }
+            if held[i].is_none() { collected += 1; } else { kept += 1; }
+        }
+        if app.world().get_entity(bystander).is_err() { return Err(format!("round {round}: a bystander entity was despawned")); }
+        for h in held.iter_mut() { h.take(); }
+        garbage_collect_entities(app.world_mut());
+        garbage_collect_entities(app.world_mut());
+        if ents.iter().any(|e| app.world().get_entity(*e).is_ok()) { return Err(format!("round {round}: an entity survived after every clone was dropped")); }
+        if app.world().entities().len() != 1 { return Err(format!("round {round}: {} entities left, expected only the bystander (children must go with their parents)", app.world().entities().len())); }
+    }
+    Ok(format!("stress ok rounds={rounds} collected={collected} kept_until_released={kept} concurrent_drops={drops}"))
+}
+
 pub fn main(args: &[String])
 {
+    if args.first().map(|s| s.as_str()) == Some("stress")
+    {
+        let rounds = args.get(1).and_then(|s| s.parse().ok()).unwrap_or(200);
+        let seed = args.get(2).and_then(|s| s.parse().ok()).unwrap_or(1);
+        match std::panic::catch_unwind(|| stress(rounds, seed))
+        {
+            Ok(Ok(s)) => println!("{s}"),
+            Ok(Err(e)) => println!("stress FAIL {e}"),
+            Err(_) => println!("stress FAIL panic"),
+        }
+        return;
+    }
     for f in args
     {
         let text = std::fs::read_to_string(f).unwrap();
